@@ -108,6 +108,11 @@ def execute(ctx, case):
             continue
         t = np.asarray(getattr(s, "threshold_at_" + m)(rs))
         tn_ = np.asarray(getattr(ng, "threshold_at_" + m)(rs))
+        # negation is exact, so the rates realised at the two thresholds are equal bit for bit (a sentinel on the wrong side of a
+        # score is two ulp away in threshold terms, but the opposite extreme in rate terms)
+        ext = (np.asarray(rs) <= 0.0) | (np.asarray(rs) >= 1.0)  # extreme targets: honoured exactly (C03), interior ones may round onto a score
+        C(np.array_equal(np.asarray(getattr(s, m)(t))[ext], np.asarray(getattr(ng, m)(tn_))[ext], equal_nan=True),
+          "rates realised at the thresholds of extreme targets differ between the object and its negation", "sym-neg-thr-rate", metric=m, targets=rs, t=t, t_negated_object=tn_)
         C(monitors.close_thr(tn_, -t, max(float(np.ptp(allv)), 1e-300)), "thresholds do not negate under negation + flipped score_class", "sym-neg-thr", metric=m, targets=rs, t=t, t_negated_object=tn_)
         if not iso:
             continue
